@@ -906,7 +906,7 @@ func (x *Exec) checkCallbackLit(st *State, c *Contract, q, pn string, cb *Contra
 		x.oblProps = cb.Props
 	}
 	outs := x.inlineClosure(probe, cl, cargs, psig)
-	if cb.Pure || cb.Modifies != nil {
+	if cb.Pure || (cb.Modifies != nil && !contains(cb.Modifies, "*")) {
 		fc := &Contract{Modifies: append([]string{"alloc"}, cb.Modifies...)}
 		x.checkFrame(probe, pre, fc, at.Pos())
 	}
